@@ -887,6 +887,7 @@ func runC14(c *Ctx) {
 	c14Field(c, NewRng(c.Seed, "c14-field"))
 	c14Points(c, NewRng(c.Seed, "c14-points"))
 	c14ScalarMult(c, NewRng(c.Seed, "c14-scalarmult"))
+	c14Digits(c, NewRng(c.Seed, "c14-digits"))
 	// entropy reader: consumed identically, error returned
 	for pos := 0; pos <= 34; pos++ {
 		for ci, chunk := range []int{0, 1, 5, 32, 33} {
